@@ -244,6 +244,17 @@ _s.poke('a', 1)
 _s.cycle()
 check('register on an implicit (never toggling) clock keeps its value', _s.peek('r'), 0)
 
+# non-blocking assignments in a combinational block: they take effect after the activation, the last one wins, no oscillation
+_t = 'module m(input a, input [1:0] b, output reg [1:0] q); always @(*) begin q <= 0; if (a) q <= b; end endmodule'
+_s = V.Sim(V.elaborate(_t, external=['a', 'b']))
+_s.poke('a', 1)
+_s.poke('b', 3)
+_s.settle()
+check('comb nba last wins', _s.peek('q'), 3)
+_s.poke('a', 0)
+_s.settle()
+check('comb nba default', _s.peek('q'), 0)
+
 if FAILS:
     print('vlog self-test FAILED:')
     for f in FAILS:
